@@ -50,21 +50,24 @@ func opString(o Op) string {
 }
 
 type caseInput struct {
-	Profile  string   `json:"profile"`
-	Ops      []string `json:"ops"`
-	Premises bool     `json:"premises_of_the_theorem_hold"`
-	KfKey    string   `json:"kf_key,omitempty"`
-	GoDiff   []string `json:"fresh_cluster_diff,omitempty"`
-	WeakDiff []string `json:"diff_after_each_object_delivered_once,omitempty"`
-	Panic    string   `json:"panic,omitempty"`
+	Profile      string   `json:"profile"`
+	Ops          []string `json:"ops"`
+	Premises     bool     `json:"premises_of_the_theorem_hold"`
+	PremisesWeak bool     `json:"premises_of_the_once_delivered_variant_hold"`
+	KfKey        string   `json:"kf_key,omitempty"`
+	GoDiff       []string `json:"fresh_cluster_diff,omitempty"`
+	WeakDiff     []string `json:"diff_after_each_object_delivered_once,omitempty"`
+	Panic        string   `json:"panic,omitempty"`
 }
 
 type result struct {
-	gallina string
-	input   caseInput
-	counts  map[string]int
-	key     string
-	goFail  bool
+	gallina  string
+	input    caseInput
+	counts   map[string]int
+	key      string
+	goFail   bool
+	weakFail bool
+	markFail string
 }
 
 var interesting = []string{"br:UpdateNode:providerID-changed", "br:UpdateNode:joins-claim-entry", "br:DeleteNode:claim-keeps-entry",
@@ -99,8 +102,8 @@ func runHistory(seed uint64, profName string, script func(g *gen)) (res result) 
 	res.counts = counts
 	res.input.Profile = profName
 	counts["profile:"+profName]++
-	var fresh []string
-	premises := false
+	var fresh, weak []string
+	premises, premW := false, false
 	panicked, msg := kit.Recover(func() {
 		if script != nil {
 			script(g)
@@ -108,31 +111,31 @@ func runHistory(seed uint64, profName string, script func(g *gen)) (res result) 
 			n := r.Range(6, 28)
 			mid := r.Range(3, n)
 			g.history(mid)
-			g.observe("mid")
+			g.observe("mid", false)
 			g.history(len(g.ops) + n - mid)
 		}
-		g.observe("history")
+		g.observe("history", false)
 		g.weakClose()
-		g.observe("each-delivered-once")
-		_, fd := g.w.fresh(markedIDs(g.w))
-		res.input.WeakDiff = diffDumps(g.w.cluster.VerifC11Dump(), fd)
+		// the weaker notion: every key delivered once after its last change
+		premW = g.histOK && !g.stale && g.podsSettled()
+		fcw, fdw := g.w.fresh(markedIDs(g.w))
+		weak = diffDumps(g.w.cluster.VerifC11Dump(), fdw)
+		weak = append(weak, poolStateDiff(g.w.cluster, fcw, []string{"pa", "pb"})...)
+		if a, b := antiAffinityView(g.w.cluster), antiAffinityView(fcw); strings.Join(a, ",") != strings.Join(b, ",") {
+			weak = append(weak, fmt.Sprintf("anti-affinity: cached=%v fresh=%v", a, b))
+		}
+		res.input.WeakDiff = weak
+		g.observe("each-delivered-once", premW)
 		// the premises of quiescent_equals_fresh, evaluated where the closing round starts
 		premises = g.histOK && g.podsSettled()
 		g.fullRound()
 		fc, fd := g.w.fresh(markedIDs(g.w))
 		fresh = diffDumps(g.w.cluster.VerifC11Dump(), fd)
-		if !g.prof.Relabel {
-			// NodePoolState is outside the Coq model; a nodepool label that changes leaves the claim in its old pool's sets
-			fresh = append(fresh, poolStateDiff(g.w.cluster, fc, []string{"pa", "pb"})...)
-		}
+		fresh = append(fresh, poolStateDiff(g.w.cluster, fc, []string{"pa", "pb"})...)
 		if a, b := antiAffinityView(g.w.cluster), antiAffinityView(fc); strings.Join(a, ",") != strings.Join(b, ",") {
 			fresh = append(fresh, fmt.Sprintf("anti-affinity: cached=%v fresh=%v", a, b))
 		}
-		if premises {
-			g.observe("final")
-		} else {
-			g.observe("closing")
-		}
+		g.observe("final", premises)
 	})
 	if panicked {
 		g.ops = append(g.ops, Op{Kind: "Panic"})
@@ -140,8 +143,22 @@ func runHistory(seed uint64, profName string, script func(g *gen)) (res result) 
 		res.input.Panic = msg
 		counts["outcome:panic"]++
 	}
-	for _, c := range categories(res.input.WeakDiff) {
-		counts["after-each-object-delivered-once:differs:"+c]++
+	switch {
+	case panicked:
+	case premW && len(weak) > 0:
+		res.weakFail = true
+		counts["once-delivered:premises-true:differs-from-fresh"]++
+	case premW:
+		counts["once-delivered:premises-true:equals-fresh"]++
+	default:
+		why := "hist_ok-or-pods_settled-false"
+		if g.histOK && g.podsSettled() {
+			why = "pod-rewritten-on-same-node"
+		}
+		counts["once-delivered:premises-false:"+why]++
+		for _, c := range categories(weak) {
+			counts["once-delivered:premises-false:differs:"+c]++
+		}
 	}
 	res.input.GoDiff = fresh
 	switch {
@@ -166,6 +183,8 @@ func runHistory(seed uint64, profName string, script func(g *gen)) (res result) 
 		counts["outcome:equals-fresh"]++
 	}
 	res.input.Premises = premises
+	res.markFail = g.markFail
+	res.input.PremisesWeak = premW
 	for _, o := range g.ops {
 		res.input.Ops = append(res.input.Ops, opString(o))
 	}
@@ -240,6 +259,12 @@ func main() {
 			for ; v > 0; v-- {
 				c.Count(k)
 			}
+		}
+		if r.markFail != "" {
+			c.Fail(id, "MarkForDeletion/UnmarkForDeletion must reach every tracked id of the list: "+r.markFail, "", r.input)
+		}
+		if r.weakFail {
+			c.Fail(id, "every key was delivered after its last change and the premises hold, but the cache differs from a fresh real Cluster: "+strings.Join(r.input.WeakDiff, "; "), "", r.input)
 		}
 		if r.goFail {
 			c.Fail(id, "cache differs from a fresh real Cluster fed the final API state although the premises hold: "+strings.Join(r.input.GoDiff, "; "), "", r.input)
